@@ -46,6 +46,36 @@ def c13_1(ctx):
     raises = sym.exits_formula(w, ru.is_raise)
     if not writes:
         raise Undecided("distribute_from_split_pool writes no coin_value")
+    # the request `estimate the fee` is told from a fee by a value no NUMBER equals: a sentinel compared with == / in that is (or
+    # contains) a bool or an int is taken for the fee of that amount (True == 1, so a fee of one satoshi is replaced by the estimate)
+    fee_p = f.params()[1]
+    cof = sym.make_const_of(ctx, f, tables=True)
+    numeric = []
+    for n in ast.walk(sym.expanded(ctx, f)):
+        if isinstance(n, ast.Compare) and len(n.ops) == 1 and isinstance(n.ops[0], (ast.Eq, ast.NotEq, ast.In, ast.NotIn)):
+            sides = [n.left, n.comparators[0]]
+            if not any(isinstance(x, ast.Name) and x.id == fee_p for x in sides):
+                continue
+            other = sides[1] if isinstance(sides[0], ast.Name) and sides[0].id == fee_p else sides[0]
+            vals = None
+            if isinstance(other, ast.Constant):
+                vals = [other.value]
+            elif isinstance(other, (ast.Tuple, ast.List, ast.Set)) and all(isinstance(x, ast.Constant) for x in other.elts):
+                vals = [x.value for x in other.elts]
+            elif isinstance(other, (ast.Name, ast.Attribute)):
+                v_ = cof(other)
+                vals = list(v_) if isinstance(v_, (tuple, list)) else ([v_] if v_ is not None else None)
+                if vals is None:
+                    a_ = sym.make_assign_resolver(ctx, f)(other) if isinstance(other, ast.Name) else None
+                    if isinstance(a_, (ast.Tuple, ast.List, ast.Set)) and all(isinstance(x, ast.Constant) for x in a_.elts):
+                        vals = [x.value for x in a_.elts]
+                    elif isinstance(a_, ast.Constant):
+                        vals = [a_.value]
+            if vals is not None and isinstance(n.ops[0], (ast.In, ast.NotIn, ast.Eq, ast.NotEq)) and any(isinstance(v_, (bool, int, float)) for v_ in vals) and any(isinstance(v_, str) for v_ in vals):
+                numeric.append((n, vals))
+    ctx.check(not numeric, "fee-sentinel-is-no-number", ctx.where(f, numeric[0][0]) if numeric else ctx.where(f),
+              "distribute_from_split_pool tells `estimate the fee` from a fee with `%s` over %r: a numeric fee equal to one of these (True == 1) is replaced by the estimate, and outputs + requested fee no longer equal the inputs"
+              % (norm(numeric[0][0])[:60] if numeric else "", numeric[0][1] if numeric else None), sample={"sentinel_values_that_equal_a_number": 0})
     # with no output left to split the outputs as given must still be covered by the inputs
     _plain = lambda o: "tx.txs_out" in o and "tx.unspents" in o and " < " in o and "fee" not in o and "len(" not in o
     ctx.check(sym.exit_under(w, ru.is_raise, _plain) or sym.exit_under(w, ru.is_raise, _plain, positive=False), "funds-cover-fixed-outputs", ctx.where(f),
@@ -66,7 +96,8 @@ def c13_2(ctx):
     it = ctx.interp
     mv = it.module(m.name)
     import decimal
-    ctx.check(mv.ns.get("SATOSHI_PER_COIN") == decimal.Decimal(100000000) and mv.ns.get("SATOSHI_TO_MBTC") == decimal.Decimal(100000), "conversion-constants", CONV + ":1", "SATOSHI_PER_COIN / SATOSHI_TO_MBTC are not 10^8 / 10^5 as Decimal")
+    spc, stm = mv.ns.get("SATOSHI_PER_COIN"), mv.ns.get("SATOSHI_TO_MBTC")
+    ctx.check(spc == decimal.Decimal(100000000) and stm == decimal.Decimal(100000), "conversion-constants", CONV + ":1", "SATOSHI_PER_COIN / SATOSHI_TO_MBTC are %r / %r, not 10^8 / 10^5 as Decimal" % (spc, stm))
     bad = []
     for n_ in ast.walk(m.tree):
         if isinstance(n_, ast.Attribute) and n_.attr in ("Context", "localcontext", "setcontext", "prec", "BasicContext", "ExtendedContext") or (isinstance(n_, ast.Name) and n_.id in ("float",)):
@@ -82,6 +113,45 @@ def c13_3(ctx):
     _refcheck(ctx, TU, "create_tx", "tu_create_tx", "inputs-and-unspents-same-list")
     _refcheck(ctx, SP, "Spendable.tx_in", "sp_tx_in", "spendable-outpoint")
     _refcheck(ctx, "pycoin/coins/Tx.py", "Tx.set_unspents", "btx_set_unspents", "unspents-stored")
+    # every spendable handed in becomes an input: between the parameter and the comprehension that makes the inputs, the list is
+    # only mapped element by element (never filtered, de-duplicated, sliced or re-ordered) -- a spendable that is dropped takes its
+    # value out of `outputs + fee = inputs`, and shifts the pairing of every later input
+    ct = ctx.func(TU, "create_tx")
+    sp = ct.params()[1]
+    dropping = []
+    unread = []
+
+    def elementwise(v):
+        if isinstance(v, ast.Name):
+            return v.id == sp
+        if isinstance(v, (ast.ListComp, ast.GeneratorExp)) and len(v.generators) == 1:
+            g = v.generators[0]
+            if g.ifs:
+                return None
+            return elementwise(g.iter)
+        if isinstance(v, ast.Call) and isinstance(v.func, ast.Name) and v.func.id in ("list", "tuple") and len(v.args) == 1:
+            return elementwise(v.args[0])
+        if isinstance(v, ast.Call) and isinstance(v.func, ast.Name) and v.func.id == "map" and len(v.args) == 2:
+            return elementwise(v.args[1])
+        return None
+    for n in ast.walk(ct.node):
+        if isinstance(n, ast.Assign) and len(n.targets) == 1 and isinstance(n.targets[0], ast.Name) and n.targets[0].id == sp:
+            ew = elementwise(n.value)
+            if ew:
+                continue
+            t = norm(n.value)
+            if any(k in t for k in ("dict.fromkeys(", "set(", "filter(", "OrderedDict", "unique", "sorted(")) or (isinstance(n.value, (ast.ListComp, ast.GeneratorExp)) and any(g.ifs for g in n.value.generators)) or \
+                    (isinstance(n.value, ast.Subscript) and isinstance(n.value.slice, ast.Slice)):
+                dropping.append(n)
+            else:
+                unread.append(n)
+    for n in dropping:
+        ctx.bad("every-spendable-becomes-an-input", ctx.where(ct, n), "create_tx re-binds its list of spendables to `%s`: elements can be dropped or re-ordered (two spendables that compare equal, whatever equality their class defines, become one), "
+                "so outputs + fee no longer equal the inputs that were given and later inputs are paired with other spendables" % norm(n.value)[:70], sample={"rebinding": norm(n.value)[:70]})
+    for n in unread:
+        ctx.undecided("every-spendable-becomes-an-input", ctx.where(ct, n), "create_tx re-binds its list of spendables to `%s`; this clause reads element-wise mappings only" % norm(n.value)[:70])
+    if not dropping and not unread:
+        ctx.ok("every-spendable-becomes-an-input", sample={"rebindings": "element-wise"})
     # unspents[i] is the output spent by txs_in[i]: the list unspents_from_db records is filled in the order of the inputs -- each
     # element is appended inside a loop that ranges over self.txs_in itself (a loop over a grouping of the inputs, a dict keyed by
     # source transaction, yields first-appearance-of-source order, and amounts / scripts are paired with the wrong inputs)
